@@ -193,6 +193,19 @@ def frames_by_label(w, label, also=()):
     return step_frames(c) if c is not None else []
 
 
+def choice_sets_equal(wa, wb):
+    """random.choice is the environment: two runs behave alike only if, call by call, they offer it the
+    same candidates (a run that may answer with a value the other can never produce is a visible
+    difference for some outcome of the draw).  Runs that make different numbers of calls are left to
+    the frame comparison."""
+    terms = []
+    for sa, sb in zip(wa.choice_sets, wb.choice_sets):
+        for one, other in ((sa, sb), (sb, sa)):
+            for v in one:
+                terms.append(Or(*[eqv(v, u) for u in other]) if other else F)
+    return And(*terms) if terms else T
+
+
 # =============================================================================================
 @obligation("prod.config")
 def prod_config(e, tier="quick", ops=None, acting=None, others=None):
@@ -231,6 +244,7 @@ def prod_config(e, tier="quick", ops=None, acting=None, others=None):
                             for l in sorted(set(fa) | set(fb))])
     A["C18.store"] = stores_equal(posta, postb)
     A["C18.subscriptions"] = subscribed_labels(xa.w) == subscribed_labels(xb.w)
+    A["C18.random_candidates"] = choice_sets_equal(xa.w, xb.w)
     return PathResult(A, world=[xa.w, xb.w], kf=[("KF-D6", kf)],
                       info=dict(op=op, allow=allowB, usage=usageB, shape="%s/%s" % (xa.a_shape, xa.o_shape)))
 
@@ -269,6 +283,7 @@ def prod_isolation(e, tier="quick", ops=None):
     A = {}
     A["C06.exceptions"] = (type(exa) is type(exb))
     A["C06.frames"] = And(*[frames_equal(fa.get(l, []), fb.get(l, [])) for l in sorted(set(fa) | set(fb))])
+    A["C06.random_candidates"] = choice_sets_equal(xa.w, xb.w)
     # rows owned by the acting app: the shared bundles that carry its app id, and every new row
     rows = []
     for k, b in enumerate(xa.w.bundles):
@@ -496,6 +511,7 @@ def prod_restart(e, tier="quick", ops=None, histories=None):
     A["C11.store"] = stores_equal(ra["post"], rb["post"])
     A["C11.related"] = And(subscribed_labels(ra["x"].w) == subscribed_labels(rb["x"].w),
                            conn_state_equal(conn_by_label(ra["x"].w, "c0"), conn_by_label(rb["x"].w, "c0")))
+    A["C11.random_candidates"] = choice_sets_equal(ra["x"].w, rb["x"].w)
     if c04 is not None:
         A["C04.free_after_history"] = c04
     return PathResult(A, world=[ra["x"].w, rb["x"].w], kf=[("KF-D6", kf)],
